@@ -19,6 +19,23 @@ class Raised(Exception):
         self.errno = None
 
 
+class ExcClass:
+    """a built-in exception class as a first-class value of the model"""
+    mi_native = True
+
+    def __init__(self, name):
+        self.name = name
+
+    def __eq__(self, o):
+        return isinstance(o, ExcClass) and o.name == self.name
+
+    def __hash__(self):
+        return hash(("ExcClass", self.name))
+
+    def __call__(self, *a, **k):
+        return Raised(self.name, a[0] if a else None)
+
+
 class _InlineExit(Exception):
     def __init__(self, block_id):
         self.block_id = block_id
@@ -296,6 +313,8 @@ def _stmt(st, env):
         e = st.exc.func if isinstance(st.exc, ast.Call) else st.exc
         if isinstance(e, ast.Name) and isinstance(env.get(e.id), Raised):
             raise env[e.id]
+        if isinstance(e, ast.Name) and isinstance(env.get(e.id), ExcClass):
+            raise Raised(env[e.id].name)          # the class was picked into a local first (`exc_type = A if c else B`)
         raise Raised(A.dotted(e) if e is not None else "?")
     if isinstance(st, ast.Try):
         try:
@@ -404,6 +423,9 @@ def _ev(e, env):
             found, val = gl(e.id)
             if found:
                 return val
+        import builtins as _bi
+        if isinstance(getattr(_bi, e.id, None), type) and issubclass(getattr(_bi, e.id), BaseException):
+            return ExcClass(e.id)               # a built-in exception class used as a value
         raise AnalysisError("miniinterp: unknown name %s" % e.id)
     if isinstance(e, ast.Attribute):
         if isinstance(e.value, ast.Name) and env.get(e.value.id) == "__SELF__":
@@ -423,6 +445,8 @@ def _ev(e, env):
         if d is not None and d in env.get("__values__", {}):
             return env["__values__"][d]
         base = _ev(e.value, env)
+        if isinstance(base, Raised) and e.attr == "__traceback__":
+            return getattr(base, "mi_traceback", None)
         if isinstance(base, ModelObj):
             if e.attr not in base.attrs:
                 raise Raised("AttributeError")
